@@ -29,6 +29,9 @@ def cellStr : Option Float → String
 def stampVal (stamp storage comp idx : Nat) : Float :=
   Float.ofNat (1 + idx + 1024 * (comp + 32 * (storage + 4 * stamp)))
 
+/-- The repository builds with EIGEN_INITIALIZE_MATRICES_BY_ZERO (CMakeLists.txt). -/
+def zeroInit : Option Float := some 0.0
+
 def kindOfNat : Nat → Option Kind
   | 0 => some Kind.gm
   | 1 => some Kind.gaussian
@@ -63,7 +66,7 @@ def dumpObj (slot : Nat) (x : Container Float) : List String :=
   let sr := if isPs then x.state.rows else 0
   let sc := if isPs then x.state.cols else 0
   let dc := x.dimCovariance
-  let acc := (List.range (min x.components 16)).flatMap fun i =>
+  let acc := (List.range (min x.components 32)).flatMap fun i =>
     let (mcol, mw) := meanBlock x i
     let (ccol, cw) := covBlock x i
     let (scol, sw) := stateBlock x i
@@ -87,7 +90,9 @@ def dumpObj (slot : Nat) (x : Container Float) : List String :=
     else []
   ["O", n slot, n (kindNat x.kind), n x.components, b x.useQuaternion, n x.dimCircularComponent,
    n x.dim, n x.dimLinear, n x.dimCircular, n x.dimNoise, n x.dimCovariance,
-   "M", n mr, n mc, "C", n cr, n cc, "W", n wr, "S", n sr, n sc, "A"] ++ acc ++ ga ++
+   "M", n mr, n mc, "C", n cr, n cc, "W", n wr, "S", n sr, n sc,
+   "A", "H"] ++ geom mr 0 mr mc ++ geom cr 0 cr cc ++ geom wr 0 wr 1 ++ (if isPs then geom sr 0 sr sc else []) ++
+   acc ++ ga ++
   ["E"] ++ entries x.mean ++ ["/"] ++ entries x.cov ++ ["/"] ++
   ((List.range wr).map fun i => cellStr (x.weight.get i 0)) ++ ["/"] ++
   (if isPs then entries x.state else [])
@@ -114,17 +119,17 @@ def parseOp : R POp := do
   | "D" => do
     let dst ← nat; let k ← nat
     match kindOfNat k with
-    | some kind => pure { op := Op.ctorDefault dst kind, dst }
+    | some kind => pure { op := Op.ctorDefault dst kind zeroInit, dst }
     | none => failure
   | "C2" => do
     let dst ← nat; let k ← nat; let comps ← nat; let d ← nat
     match kindOfNat k with
-    | some kind => pure { op := Op.ctorDim dst kind comps d, dst }
+    | some kind => pure { op := Op.ctorDim dst kind comps d zeroInit, dst }
     | none => failure
   | "C4" => do
     let dst ← nat; let k ← nat; let comps ← nat; let l ← nat; let c ← nat; let q ← bool
     match kindOfNat k with
-    | some kind => pure { op := Op.ctorLayout dst kind comps l c q, dst }
+    | some kind => pure { op := Op.ctorLayout dst kind comps l c q zeroInit, dst }
     | none => failure
   | "CP" => do
     let dst ← nat; let src ← nat; let _mode ← nat
@@ -156,6 +161,21 @@ def parseOp : R POp := do
                | some (_, false) => "f"
                | none => "-"
              | none => "-" }
+  | "AA" => do
+    let s ← nat; let i ← nat
+    pure { op := Op.augmentSelf s i, dst := s,
+           ret := fun p => match p s with
+             | some x => match augmentSelf x i with
+               | some (_, true) => "t"
+               | some (_, false) => "f"
+               | none => "-"
+             | none => "-" }
+  | "MV" => do
+    let dst ← nat; let src ← nat; let _mode ← nat
+    pure { op := Op.move dst src, dst }
+  | "BA" => do
+    let dst ← nat; let src ← nat
+    pure { op := Op.baseAssign dst src, dst }
   | "PE" => do
     let dst ← nat; let src ← nat
     pure { op := Op.concatAssign dst src, dst }
